@@ -67,17 +67,28 @@ def prep_schema(detector, medium_index, illum_wavelen, illum_polarization):
                 if len(illum_wavelen) == 1:
                     illum_wavelen = illum_wavelen.repeat(
                         len(illum_polarization.illumination))
+                labels = illum_polarization.illumination
+                if (illumination in detector.dims and
+                        len(detector.illumination) == len(labels) and
+                        all(label in list(detector.illumination.values)
+                            for label in labels.values)):
+                    #  the same channels: wavelengths in the detector's order
+                    labels = detector.illumination
                 illum_wavelen = xr.DataArray(
                     illum_wavelen, dims=illumination,
-                    coords={illumination: illum_polarization.illumination})
+                    coords={illumination: labels})
         else:
             #  need to interpret illumination from detector.illum_wavelen
             if not isinstance(illum_wavelen, xr.DataArray):
                 labels = illum_wavelen
                 if (illumination in detector.dims and
                         len(detector.illumination) == len(illum_wavelen)):
-                    #  one wavelength per channel of the detector
-                    labels = detector.illumination.values
+                    #  one wavelength per channel of the detector (unless the
+                    #  channels are labelled by these wavelengths themselves)
+                    channels = detector.illumination.values
+                    if not all(label in list(illum_wavelen)
+                               for label in channels):
+                        labels = channels
                 illum_wavelen = xr.DataArray(
                     illum_wavelen, dims=illumination,
                     coords={illumination: labels})
